@@ -83,7 +83,7 @@ def main():
     cond = threading.Condition()
     used = [0.0]
     def run_admitted(g):
-        need = min(float(g.get('mem_gb', 12)) * float(g.get('mem_share', 0.6)), budget)   # most groups peak well below their limit
+        need = min(float(g.get('mem_gb', 12)) * float(g.get('mem_share', 0.6)) * int(g.get('shards', 1)), budget)   # most groups peak well below their limit
         with cond:
             while used[0] + need > budget and used[0] > 0:
                 cond.wait()
